@@ -112,6 +112,17 @@ Theorem C01_array_push_term :
     end.
 Proof. exact apush_term. Qed.
 
+(* PROGRESS: a data call that reports success has consumed at least one byte (block limit >= 3, as in
+   all four framings) — mpt_array_push's `while (1)` loop continues only after real progress or
+   after enlarging the buffer, it cannot spin on a call that returns 0 *)
+Theorem C01_encoder_progress :
+  forall v st buf cap src, 3 <= maxlen v -> src <> [] ->
+    match enc_call v st buf cap (Some src) with
+    | (EInt k, _, _) => 1 <= k
+    | _ => True
+    end.
+Proof. exact enc_data_progress. Qed.
+
 (* non-vacuity: a 100-byte message through mpt_array_push on an empty encode_array (the buffer is
    allocated, enlarged on the way) and the termination: the frame decodes to the message *)
 Example C01_example_array_push :
@@ -160,3 +171,4 @@ Print Assumptions C01_text_encoder_roundtrip.
 Print Assumptions C01_text_decoder_delivers.
 Print Assumptions C01_array_push_data.
 Print Assumptions C01_array_push_term.
+Print Assumptions C01_encoder_progress.
